@@ -570,6 +570,136 @@ Proof.
   rewrite sessions_no_reset_witness. cbn. discriminate.
 Qed.
 
+
+(* ------------------------------------------------------------------ *)
+(** * One request per synchronize call
+    For ANY transport, ANY plugin end, ANY recalculation function and ANY fuel (no hypothesis at all):
+    nothing is sent after a message not flagged More.  The loop tries again only when the SENDING side
+    rejected the message as oversized, i.e. when nothing was delivered. *)
+Section OneRequest.
+  Variables A B U PS : Type.
+  Variable xmit : list A -> list B -> bool -> xres.
+  Variable peer : PS -> list A -> list B -> bool -> PS * option (reply U).
+  Variable rc : Z -> Z -> Z -> Z -> option (Z * Z).
+
+  Lemma sent_of_push c (o : outcome A B U PS) : sent_of (push c o) = c :: sent_of o.
+  Proof. destruct o; reflexivity. Qed.
+
+  Lemma loop_no_resend : forall fuel ps cs pp cp st,
+    no_resend (chunks_flags (sent_of (sync_loop xmit peer rc fuel ps cs pp cp st))) = true.
+  Proof.
+    induction fuel as [|fuel IH]; intros ps cs pp cp st; [reflexivity|].
+    cbn [sync_loop]. destruct (negb (slice_ok ps pp && slice_ok cs cp)); [reflexivity|].
+    destruct (xmit (take pp ps) (take cp cs) ((pp <? len ps) || (cp <? len cs))) as [|mx ml|].
+    - destruct (peer st (take pp ps) (take cp cs) ((pp <? len ps) || (cp <? len cs))) as [st' [rp|]].
+      + destruct ((pp <? len ps) || (cp <? len cs)); cbn [negb]; [|reflexivity].
+        destruct (negb (is_nil (r_update rp)) || negb (Bool.eqb (r_more rp) true)); [reflexivity|].
+        rewrite sent_of_push. unfold chunks_flags. cbn [map snd no_resend]. apply IH.
+      + cbn [sent_of chunks_flags map snd no_resend]. destruct ((pp <? len ps) || (cp <? len cs)); reflexivity.
+    - destruct (rc pp cp mx ml) as [[pp' cp']|]; [apply IH|reflexivity].
+    - reflexivity.
+  Qed.
+
+  Theorem synchronize_no_resend fuel pods ctrs st :
+    no_resend (chunks_flags (sent_of (synchronize xmit peer rc fuel pods ctrs st))) = true.
+  Proof. apply loop_no_resend. Qed.
+End OneRequest.
+
+(* ------------------------------------------------------------------ *)
+(** * The handler is invoked at most once per synchronize call, whatever it answers
+    Sender against the stub, again for ANY transport, ANY recalculation function, ANY fuel. *)
+Section HandlerOnce.
+  Variables A B U : Type.
+  Variable h : list A -> list B -> option (list U).
+  Variable xmit : list A -> list B -> bool -> xres.
+  Variable rc : Z -> Z -> Z -> Z -> option (Z * Z).
+  Notation stub := (stub_sync (Some h)).
+
+  (* what the stub has collected *)
+  Definition acc_pods (acc : option (list A * list B)) : list A := match acc with Some (a, _) => a | None => [] end.
+  Definition acc_ctrs (acc : option (list A * list B)) : list B := match acc with Some (_, c) => c | None => [] end.
+
+  Lemma stub_append_acc acc ps cs : stub_append acc ps cs = (acc_pods acc ++ ps, acc_ctrs acc ++ cs).
+  Proof. destruct acc as [[a c]|]; reflexivity. Qed.
+
+  (* the handler's share of an outcome, starting from [calls] and what was collected *)
+  Definition once_outcome (calls : list (list A * list B)) (allp : list A) (allc : list B)
+      (o : outcome A B U (stub_state A B)) : Prop :=
+    match o with
+    | Delivered _ u st' =>
+        ss_calls st' = calls ++ [(allp, allc)] /\ ss_acc st' = None /\ h allp allc = Some u
+    | Failed why _ st' =>
+        ss_calls st' = calls \/
+        (why = FPeerErr /\ ss_calls st' = calls ++ [(allp, allc)] /\ ss_acc st' = None /\ h allp allc = None)
+    | Panic _ | OutOfFuel _ => True
+    end.
+
+  Lemma once_outcome_push calls allp allc c o : once_outcome calls allp allc o -> once_outcome calls allp allc (push c o).
+  Proof. destruct o; exact (fun H => H). Qed.
+
+  Lemma loop_handler_once : forall fuel ps cs pp cp acc calls,
+    once_outcome calls (acc_pods acc ++ ps) (acc_ctrs acc ++ cs)
+      (sync_loop xmit stub rc fuel ps cs pp cp {| ss_acc := acc; ss_calls := calls |}).
+  Proof.
+    induction fuel as [|fuel IH]; intros ps cs pp cp acc calls; [exact I|].
+    cbn [sync_loop]. destruct (slice_ok ps pp && slice_ok cs cp) eqn:Sok; cbn [negb]; [|exact I].
+    apply andb_true_iff in Sok. destruct Sok as [Sp Sc]. unfold slice_ok in Sp, Sc.
+    apply andb_true_iff in Sp. apply andb_true_iff in Sc. destruct Sp as [Sp0 Sp1]. destruct Sc as [Sc0 Sc1].
+    apply Z.leb_le in Sp1. apply Z.leb_le in Sc1.
+    destruct (xmit (take pp ps) (take cp cs) ((pp <? len ps) || (cp <? len cs))) as [|mx ml|].
+    - destruct ((pp <? len ps) || (cp <? len cs)) eqn:EM.
+      + (* flagged More: collected, answered with More and no updates, the loop goes on *)
+        cbn [stub_sync ss_acc ss_calls r_update r_more is_nil negb Bool.eqb orb].
+        apply once_outcome_push. rewrite (stub_append_acc acc (take pp ps) (take cp cs)).
+        specialize (IH (drop pp ps) (drop cp cs) (clamp pp (drop pp ps)) (clamp cp (drop cp cs))
+                       (Some (acc_pods acc ++ take pp ps, acc_ctrs acc ++ take cp cs)) calls).
+        cbn [acc_pods acc_ctrs] in IH.
+        rewrite <- !app_assoc, !take_drop in IH. exact IH.
+      + (* the last message: everything that remained; the handler runs *)
+        apply orb_false_iff in EM. destruct EM as [E1 E2]. apply Z.ltb_ge in E1, E2.
+        rewrite !take_all by assumption.
+        cbn [stub_sync ss_acc ss_calls]. rewrite stub_append_acc.
+        destruct (h (acc_pods acc ++ ps) (acc_ctrs acc ++ cs)) as [u|] eqn:EH; cbn [negb once_outcome ss_calls ss_acc r_update].
+        * repeat split; assumption.
+        * right. repeat split; assumption.
+    - destruct (rc pp cp mx ml) as [[pp' cp']|]; [apply IH|left; reflexivity].
+    - left. reflexivity.
+  Qed.
+
+  Theorem handler_once_from (st : stub_state A B) fuel pods ctrs :
+    ss_acc st = None ->
+    once_outcome (ss_calls st) pods ctrs (synchronize xmit stub rc fuel pods ctrs st).
+  Proof.
+    destruct st as [acc calls]. cbn [ss_acc ss_calls]. intros ->.
+    exact (loop_handler_once fuel pods ctrs (len pods) (len ctrs) None calls).
+  Qed.
+End HandlerOnce.
+
+Arguments once_outcome {A B U}.
+
+(* the same with the handler's errors spelled out: whatever error the handler returns - a gRPC status of
+   any code, ResourceExhausted included, or any other error - and whatever earlier connections left in the
+   stub value, after close() one synchronize call invokes the handler at most once, with exactly the
+   runtime's state; if the handler fails, the synchronisation fails (the plugin is not activated) *)
+Theorem handler_at_most_once {A B U} (he : list A -> list B -> list U + herror)
+    (xmit : list A -> list B -> bool -> xres) (rc : Z -> Z -> Z -> Z -> option (Z * Z)) fuel pods ctrs (st : stub_state A B) :
+  match synchronize xmit (stub_sync (Some (forget_error he))) rc fuel pods ctrs (stub_close close_resets_sync st) with
+  | Delivered _ u st' => ss_calls st' = ss_calls st ++ [(pods, ctrs)] /\ he pods ctrs = inl u
+  | Failed why _ st' =>
+      ss_calls st' = ss_calls st \/
+      (why = FPeerErr /\ ss_calls st' = ss_calls st ++ [(pods, ctrs)] /\ exists e, he pods ctrs = inr e)
+  | Panic _ | OutOfFuel _ => True
+  end.
+Proof.
+  pose proof (handler_once_from A B U (forget_error he) xmit rc (stub_close close_resets_sync st) fuel pods ctrs) as H.
+  rewrite close_resets in *. specialize (H eq_refl). cbn [stub_close ss_calls] in H.
+  destruct (synchronize xmit (stub_sync (Some (forget_error he))) rc fuel pods ctrs (stub_close true st)) as [s u st'|w s st'|s|s];
+    cbn [once_outcome] in H; try exact I.
+  - destruct H as [Hc [_ Hh]]. split; [exact Hc|]. unfold forget_error in Hh. destruct (he pods ctrs); [inversion Hh; reflexivity|discriminate].
+  - destruct H as [Hc|[Hw [Hc [_ Hh]]]]; [left; exact Hc|right]. repeat split; try assumption.
+    unfold forget_error in Hh. destruct (he pods ctrs) as [u|e]; [discriminate|exists e; reflexivity].
+Qed.
+
 (* ------------------------------------------------------------------ *)
 (** * The concrete sender: recalcObjsPerSyncMsg, any honest transport *)
 Theorem safety {A B U PS} (xmit : list A -> list B -> bool -> xres)
